@@ -1,6 +1,6 @@
 (* C15 driver: runs the same operation lines as harness/C15/nametab.c on the
    extracted model and prints the same canonical text.
-   usage: driver <cfgbits>   (2 chars 0/1: derefclear rendup -- repairs proposed but not yet in /repo)
+   usage: driver <cfgbits>   (1 char 0/1: delalias -- repair C15-13, proposed but not yet in /repo)
    extra output per step (lines starting with "i "): the model's invariant bits. *)
 open Model
 
@@ -19,7 +19,7 @@ let show s = if s = "" then "~" else s
 let optok s = if s = "-" then None else Some (name_of_string (tok s))
 let split_list s = if s = "-" then [] else String.split_on_char ',' s
 
-let msel = [0; 1; 3; 4; 5; 6; 15; 16; 17; 19; 20; 21; 22]
+let msel = [0; 1; 2; 3; 4; 5; 6; 7; 8; 9; 10; 11; 12; 13; 14; 15; 16; 17; 18; 19; 20; 21; 22]
 
 let by_id l id = List.find_opt (fun e -> int_of_n e.e_id = int_of_n id) l
 let pname l = function
@@ -62,16 +62,34 @@ let dump st =
     (match constants st par with
      | Some vs -> List.iter (fun v -> Printf.printf " %d" (int_of_z v)) vs
      | None -> ());
-    print_newline () in
+    print_newline ();
+    let vals tag ty fmt =
+      Printf.printf "%s %s" tag pn;
+      (match values_of st par (n_of_int ty) with
+       | Some vs -> List.iter (fun v -> Printf.printf " %s" (fmt (int_of_z v))) vs
+       | None -> ());
+      print_newline () in
+    vals "vs" 17 (fun v -> Printf.sprintf "s%d" v);
+    vals "vc" 16 (fun v -> Printf.sprintf "2:%d" (v land 255));
+    vals "va" 18 (fun v -> Printf.sprintf "s%d" v) in
   container None;
   List.iter (fun e -> if (not e.e_meta) && e.e_kids <> [] then container (Some e)) l
+
+let dump_match st =
+  List.iteri (fun a fr ->
+    List.iter (fun sl ->
+      List.iter (fun f ->
+        Printf.printf "x %d %d %d :" a sl f;
+        List.iter (fun n -> Printf.printf " %s" (show (string_of_name n)))
+          (match_entries st (match fr with Some k -> Some (n_of_int k) | None -> None) (n_of_int sl) (n_of_int f));
+        print_newline ()) [0; 3]) [22; 19; 20; 21]) [Some 0; Some 1; None]
 
 let b2 b = if b then 1 else 0
 
 let () =
-  let bits = if Array.length Sys.argv > 1 then Sys.argv.(1) else "00" in
+  let bits = if Array.length Sys.argv > 1 then Sys.argv.(1) else "0" in
   let g i = i < String.length bits && bits.[i] = '1' in
-  let cfg = { fx_derefclear = g 0; fx_rendup = g 1 } in
+  let cfg = g 0 in
   let st = ref init_state in
   try
     while true do
@@ -108,6 +126,7 @@ let () =
            | _ ->
              st := st';
              dump !st;
+             dump_match !st;
              Printf.printf "i sorted=%d fresh=%d ref=%d clive=%d ccons=%d meta=%d alive=%d ares=%d\n"
                (b2 (sorted_ok !st)) (b2 (ids_fresh !st)) (b2 (ref_ok !st)) (b2 (cache_live !st))
                (b2 (cache_consistent !st)) (b2 (meta_ok !st)) (b2 (alias_live !st)) (b2 (alias_resolved !st)))
